@@ -284,6 +284,7 @@ func (c *client) conn() (internalConn, async.Future[internalConn], status.Status
 	}
 
 	// Slow path
+	verifYield(15)
 	c.mu.Lock()
 	defer c.mu.Unlock()
 
@@ -392,6 +393,7 @@ func (c *client) connectRecover(ctx async.Context) (_ internalConn, st status.St
 		return nil, st
 	}
 	go c.handle(conn)
+	verifYield(16)
 
 	// Add connection
 	c.mu.Lock()
